@@ -19,8 +19,8 @@
 From Coq Require Import List Bool String ZArith.
 From KV Require Import Eqb Str AL.
 From KV.Gen Require Import Tupgrade.
-From KV.Model Require Import MUpgrade.
-From KV.Proofs Require Import PUpgrade.
+From KV.Model Require Import MUpgrade MDlUpgrade.
+From KV.Proofs Require Import PUpgrade PDlUpgrade.
 Import ListNotations.
 Local Open Scope string_scope.
 Local Open Scope list_scope.
@@ -238,3 +238,61 @@ Lemma C20_legacy_root_link_refuted :
   upgrade_copy_legacy ex_args RootLink gf_only = CFailed Refused /\
   exists r, upgrade_copy ex_args RootLink gf_only = CDone r /\ c_rd r = RNone.
 Proof. split; [vm_compute; reflexivity|]. eexists. split; vm_compute; reflexivity. Qed.
+
+(* ------------------------------------------------------------------ 9. downloader route (tools/kapture_download_dataset.py):
+   any history of installs into one install directory and runs of the `upgrade` command, each ending with a pass of
+   Dataset.upgrade over the whole install directory as it is then.
+     session [] ss      the install directory after the history ss (and whether a step raised)
+     installs ss        the dataset directories the history deflates, in order
+     wants_upgrade t    sensors/sensors.txt of t says 1.0 or carries no version line
+     good t             t is no 1.0 dataset, or a 1.0 dataset in the domain (tidy10 with all names defaulted, metrics L2)
+     settled t          t itself when it is no 1.0 dataset, else the result of the in-place route on it
+   Every dataset ends as the in-place upgrade of what was deflated — upgraded exactly once, whatever was installed before
+   or after it, in however many steps — and nothing raises; directories that are no 1.0 dataset stay as they are. *)
+Theorem C20_session_settles : forall ss,
+  Forall (fun p => good (snd p)) (installs ss) ->
+  session [] ss = (map (fun p => (fst p, settled (snd p))) (installs ss), false).
+Proof. exact session_settles. Qed.
+Print Assumptions C20_session_settles.
+
+Theorem C20_session_preserves : forall ss n t v,
+  Forall (fun p => good (snd p)) (installs ss) ->
+  In (n, t) (installs ss) -> tidy10 dl_args t -> load10 dl_args t = Some v -> wants_upgrade t = true ->
+  exists r st, session [] ss = (r, false) /\ upgrade_inplace dl_args t = Done st /\
+               In (n, fst st) r /\ load11 (fst st) = Some v /\ map fst r = map fst (installs ss).
+Proof. exact session_preserves. Qed.
+Print Assumptions C20_session_preserves.
+
+(* an upgraded dataset is not upgraded again by the later passes: its sensors.txt says 1.1 *)
+Theorem C20_upgraded_is_left_alone : forall t v st,
+  tidy10 dl_args t -> load10 dl_args t = Some v -> upgrade_inplace dl_args t = Done st ->
+  wants_upgrade (fst st) = false.
+Proof. exact upgraded_is_calm. Qed.
+Print Assumptions C20_upgraded_is_left_alone.
+
+(* frame, for every install directory (also when the pass raises): a directory that is no 1.0 dataset is not touched,
+   and a pass neither adds, drops nor reorders directories *)
+Theorem C20_pass_frame : forall r,
+  (forall n t, In (n, t) r -> wants_upgrade t = false -> In (n, t) (fst (upgrade_pass r))) /\
+  map fst (fst (upgrade_pass r)) = map fst r.
+Proof. intros r. split; [apply pass_frame | apply pass_names]. Qed.
+Print Assumptions C20_pass_frame.
+
+(* non-vacuity and the behaviour that must not happen: two 1.0 datasets installed one after the other.  The real pass
+   upgrades both; a downloader that keeps the list of directories found by its first pass leaves the second one in 1.0
+   (seeded change C20-downloader-stale-csv-list), where the loader skips the whole reconstruction. *)
+Example C20_session_example :
+  good ex_tree /\ good gf_only /\ wants_upgrade ex_tree = true /\ wants_upgrade gf_only = true /\
+  (exists ra rb, session [] [Install "dsA/mapping" gf_only; Install "dsB" ex_tree; Again]
+                 = ([("dsA/mapping", ra); ("dsB", rb)], false) /\
+                 load11 ra = load10 dl_args gf_only /\ load11 rb = load10 dl_args ex_tree /\ load11 rb <> None) /\
+  (exists ra, session_listed None [] [Install "dsA/mapping" gf_only; Install "dsB" ex_tree; Again]
+              = ([("dsA/mapping", ra); ("dsB", ex_tree)], false) /\ wants_upgrade ex_tree = true).
+Proof.
+  split; [right; split; [apply tidy10_b_sound; vm_compute; reflexivity | eexists; vm_compute; reflexivity]|].
+  split; [right; split; [apply tidy10_b_sound; vm_compute; reflexivity | eexists; vm_compute; reflexivity]|].
+  split; [vm_compute; reflexivity|]. split; [vm_compute; reflexivity|]. split.
+  - eexists. eexists. split; [vm_compute; reflexivity|]. split; [vm_compute; reflexivity|].
+    split; [vm_compute; reflexivity | vm_compute; discriminate].
+  - eexists. split; vm_compute; reflexivity.
+Qed.
